@@ -70,6 +70,8 @@ pub struct Params {
   pub stack_mb: usize,
   /// safety-net wall clock per worker, seconds (expiry => exit 2, never a violation)
   pub worker_timeout_s: u64,
+  /// proptest shrink iterations per failure (expensive properties use fewer)
+  pub shrink_iters: u32,
 }
 
 pub trait Prop: Sync + Send {
